@@ -145,4 +145,17 @@ PROPS = {
                              r"SubManifold<SE3d>\.any\.copy_independent", r"SO3d\.sub\.rplus_moves_free_only\|fixed=3/3"]},
         "assumptions": ["group leaves are compared through the documented matrix (q and -q are the same element)", "verdict covers only the executions sampled"],
     },
+    "C19": {
+        "units": [{"name": "c19_a", "src": "harness/c19.cpp", "defs": ["-DTS=0"], "flavor": "asan", "shards": {"quick": 8, "thorough": 16}},
+                  {"name": "c19_b", "src": "harness/c19.cpp", "defs": ["-DTS=1"], "flavor": "asan", "shards": {"quick": 8, "thorough": 16}}],
+        "abort_outside_case_is_violation": "static-init",
+        "rule": "cases = (a, i0, host) per group (SO2/SO3/SE2/SE3/C1/R3, float+double, Galilei and SE_2_3 for ad/dr_exp, 5 Bundles incl. nested): tangent "
+                "strata incl. zero, single-axis, small-angle band; block offsets 0..12, host size up to 34 with up to 400 random extra stored entries "
+                "(sentinels); value/inner/outer arrays snapshotted before/after; two translation units odr-use the interdependent inline patterns in "
+                "opposite orders; distinct = distinct (a, i0, host size); non-trivial = a != 0",
+        "floors": {"min_evaluations": {"quick": 50000, "thorough": 1000000},
+                   "cells": [r"B<SO3d,B<SE3d,C1d>>\.d2r_expinv_sparse\.others_untouched", r"SE3f\.d2r_exp_sparse\.block_equals_dense", r"Galileid\.dr_exp_sparse\.structure_unchanged",
+                             r"C1d\.dr_exp_sparse\.block_equals_dense", r"SE2d\.d2r_exp\.pattern_superset"]},
+        "assumptions": ["dense routines (judged by C03-C05) are the reference for the values", "verdict covers only the executions sampled"],
+    },
 }
